@@ -90,7 +90,7 @@ def props_of(finding, trace, sc):
         return {"C08"}
     if base == "untrimmed":
         return {"C15"}
-    if base == "stage":
+    if base in ("stage", "def"):
         ps = set()
         if mg:
             if mg["ha"]:
@@ -141,9 +141,7 @@ def known_match(pid, finding, trace, sc, known):
 # ---------------------------------------------------------------------------------------
 def run_traces(pid, scs, keep=None, batch=400):
     """record every scenario, validate with TLC in batches; returns (traces, results, tlc stats)"""
-    from record import record
-
-    traces = [record(sc) for sc in scs]
+    traces = record_all(scs)
     results = {}
     stats = {"states": 0, "distinct": 0, "wall": 0.0, "bytes": 0}
     for a in range(0, len(traces), batch):
@@ -156,6 +154,41 @@ def run_traces(pid, scs, keep=None, batch=400):
         stats["wall"] += info["wall"]
         stats["bytes"] += info["size"]
     return traces, results, stats
+
+
+def record_all(scs):
+    """record in this process, except scenarios that ask for another process time zone"""
+    import subprocess
+    import tempfile
+
+    from record import record
+
+    traces = [None] * len(scs)
+    by_tz = {}
+    for i, sc in enumerate(scs):
+        if sc.get("tz"):
+            by_tz.setdefault(sc["tz"], []).append(i)
+        else:
+            traces[i] = record(sc)
+    for tz, idxs in by_tz.items():
+        d = tempfile.mkdtemp(prefix="rec_")
+        try:
+            with open(os.path.join(d, "in.json"), "w") as f:
+                json.dump([sc_to_json(scs[i]) for i in idxs], f)
+            env = dict(os.environ, TZ=tz, PYTHONHASHSEED="0", PYTHONDONTWRITEBYTECODE="1")
+            p = subprocess.run([sys.executable, os.path.join(HERE, "rec_worker.py"),
+                                os.path.join(d, "in.json"), os.path.join(d, "out.json")],
+                               env=env, capture_output=True, text=True, timeout=600)
+            if p.returncode != 0:
+                raise RuntimeError("recorder failed under TZ=%s: %s" % (tz, p.stderr[-2000:]))
+            out = json.load(open(os.path.join(d, "out.json")))
+            for i, tr in zip(idxs, out):
+                traces[i] = tr
+        finally:
+            import shutil
+
+            shutil.rmtree(d, ignore_errors=True)
+    return traces
 
 
 def sample_of(sc, trace):
@@ -204,10 +237,13 @@ def trace_check(pid, tier, seed, scs, mc_stats=None, extra_cov=None, t0=None):
     viol, knownhits, foreign = [], {}, {}
     nchk = unch = 0
     clause_counts = {}
+    notes = {}
     for i, (sc, tr) in enumerate(zip(scs, traces)):
         r = results[i]
         nchk += r["nchk"]
         unch += r["unch"]
+        for nt in r.get("notes", []):
+            notes[nt] = notes.get(nt, 0) + 1
         mine = []
         for f in r["fails"]:
             ps = props_of(f, tr, sc)
@@ -242,6 +278,7 @@ def trace_check(pid, tier, seed, scs, mc_stats=None, extra_cov=None, t0=None):
         "trace_events": sum(len(t["ev"]) for t in traces),
         "comparisons_ok": nchk,
         "comparisons_unchecked": unch,
+        "conditional_clauses_applied": notes,
         "failed_clauses_all_properties": clause_counts,
         "foreign_findings": foreign,
         "known_findings_hit": sorted(knownhits),
